@@ -54,3 +54,29 @@ func (p *HonestSignPlugin) GenerateEnvelope(ctx context.Context, req *pf.Generat
 func (p *HonestSignPlugin) VerifySignature(ctx context.Context, req *pf.VerifySignatureRequest) (*pf.VerifySignatureResponse, error) {
 	return nil, fmt.Errorf("not a verifier")
 }
+
+// TwoKeyPlugin holds two keys (of different specs) and uses the one the request's plugin configuration selects
+// ("key": "alt" -> Alt, anything else -> Default) - a key alias / key version chosen per call.
+type TwoKeyPlugin struct{ Default, Alt *HonestSignPlugin }
+
+func (p *TwoKeyPlugin) pick(cfg map[string]string) *HonestSignPlugin {
+	if cfg["key"] == "alt" {
+		return p.Alt
+	}
+	return p.Default
+}
+func (p *TwoKeyPlugin) GetMetadata(ctx context.Context, req *pf.GetMetadataRequest) (*pf.GetMetadataResponse, error) {
+	return p.Default.GetMetadata(ctx, req)
+}
+func (p *TwoKeyPlugin) DescribeKey(ctx context.Context, req *pf.DescribeKeyRequest) (*pf.DescribeKeyResponse, error) {
+	return p.pick(req.PluginConfig).DescribeKey(ctx, req)
+}
+func (p *TwoKeyPlugin) GenerateSignature(ctx context.Context, req *pf.GenerateSignatureRequest) (*pf.GenerateSignatureResponse, error) {
+	return p.pick(req.PluginConfig).GenerateSignature(ctx, req)
+}
+func (p *TwoKeyPlugin) GenerateEnvelope(ctx context.Context, req *pf.GenerateEnvelopeRequest) (*pf.GenerateEnvelopeResponse, error) {
+	return p.pick(req.PluginConfig).GenerateEnvelope(ctx, req)
+}
+func (p *TwoKeyPlugin) VerifySignature(ctx context.Context, req *pf.VerifySignatureRequest) (*pf.VerifySignatureResponse, error) {
+	return nil, fmt.Errorf("not a verifier")
+}
